@@ -109,6 +109,8 @@ type worker struct {
 	buildsAt int
 	capture  int // >=0: do not execute; print the case with this index
 	flushAt  time.Time
+	stateful bool     // the unit being run is an explicit-state search
+	last     *outcome // outcome of the case emitted last (nil if it was not executed)
 }
 
 type violRec struct {
@@ -143,6 +145,13 @@ type unitResult struct {
 	Notes      map[string]int64  `json:"notes"`
 	Skipped    []skippedCase     `json:"skipped"`
 	dset       map[string]struct{}
+}
+
+func (w *worker) writeJournalAt(idx int) {
+	keep := w.caseIdx
+	w.caseIdx = idx
+	w.writeJournal()
+	w.caseIdx = keep
 }
 
 func (w *worker) writeJournal() {
@@ -210,9 +219,7 @@ func (w *worker) emit(cs *caseT) {
 		}
 		return
 	}
-	if w.only >= 0 && idx != w.only {
-		return
-	}
+	w.last = nil
 	if w.skip[idx] {
 		// a case that killed an earlier worker: describe it for the parent, do not execute it
 		c := *cs
@@ -220,7 +227,12 @@ func (w *worker) emit(cs *caseT) {
 		w.res.Skipped = append(w.res.Skipped, skippedCase{Idx: idx, Case: &c})
 		return
 	}
-	if idx < w.from {
+	if (w.only >= 0 && idx != w.only) || idx < w.from {
+		if w.stateful && (w.only < 0 || idx < w.only) {
+			// an explicit-state search needs the outcome of every earlier case to enumerate the later ones
+			w.writeJournalAt(idx)
+			w.last = w.execute(cs)
+		}
 		return
 	}
 	if w.sinceFl >= 1000 {
@@ -231,9 +243,13 @@ func (w *worker) emit(cs *caseT) {
 	w.writeJournal()
 	w.caseIdx = idx + 1
 	out := w.execute(cs)
+	w.last = out
 	r := w.res
 	if out.RejectExpected {
 		r.Notes["rejection-expected"]++
+	}
+	if out.StaleOrigin {
+		r.Notes["fetcher-stale-origin-states"]++
 	}
 	r.Notes["gossip-runs"] += int64(out.GossipRuns)
 	r.Notes["gossip-messages-sent"] += int64(out.GossipSent)
@@ -254,7 +270,14 @@ func (w *worker) emit(cs *caseT) {
 		r.Contained[cs.Reactor+"|"+cs.Msg+"|"+site]++
 	}
 	// distinct non-trivial case: decoded at least to the message type, or rejected at a distinct stage
-	r.dset[fmt.Sprintf("%s|%02x|%s|%s|%s|%s|%s|%s", cs.Reactor, cs.Ch, cs.Msg, cs.Field, cs.Class, cs.State, cs.Peer, out.Stage)] = struct{}{}
+	if cs.Kind == "fetcher" {
+		// explicit-state search: distinct by the state reached, not by the path
+		if out.StateKey != "" {
+			r.dset["txpool|fetcher-state|"+out.StateKey] = struct{}{}
+		}
+	} else {
+		r.dset[fmt.Sprintf("%s|%02x|%s|%s|%s|%s|%s|%s", cs.Reactor, cs.Ch, cs.Msg, cs.Field, cs.Class, cs.State, cs.Peer, out.Stage)] = struct{}{}
+	}
 	if len(r.Samples) < 1 && out.Stage != "decode-error" && out.Stage != "accepted-no-effect" && out.Stage != "roundtrip-ok" && out.Stage != "conn:error" &&
 		out.Stage != "tx:ignored-unknown-peer" && cs.Kind != "valid" {
 		c := *cs
@@ -336,6 +359,7 @@ func (w *worker) flush(kind string, upto int) {
 func (w *worker) runUnit(us []*unit, idx, from, only int, skip map[int]bool) {
 	u := us[idx]
 	w.unitIdx, w.caseIdx, w.from, w.only, w.skip = idx, 0, from, only, skip
+	w.stateful = u.Stateful
 	w.res = newUnitResult(idx)
 	w.sinceFl = 0
 	w.flushAt = time.Now()
